@@ -1684,6 +1684,29 @@ Proof.
   intros a b c d D1 T1 D2 f m HD HT Hsnd Hf Hb Hd L1 L2. unfold L1, L2.
   rewrite !assemble_unfold.
   rewrite segment_rv_data_text by assumption.
-  rewrite segment_rv_text_data by (try assumption; [eapply plain_transfer; eassumption | apply plain_renumber; assumption]).
+  rewrite segment_rv_text_data
+    by first [assumption | eapply plain_transfer; eassumption | apply plain_renumber; assumption].
   cbn [pbind fst snd]. apply assemble_rest_renumber; assumption.
 Qed.
+
+(** * Packaged statements for Props/C05.v *)
+Lemma literal_value_decimal_lem :
+  (forall z, - 10 ^ 4300 < z < 10 ^ 4300 -> py_int0 (str_dec z) = Some z) /\
+  (forall z, 0 <= z < 10 ^ 4300 -> py_int0 (45 :: str_dec z) = Some (- z)).
+Proof. exact (conj py_int0_str_dec py_int0_neg_str_dec). Qed.
+
+Lemma rset_meaning_lem : forall s r v,
+  (0 < r < 32 -> rget (rset s r v) r = v) /\
+  (forall k, k <> r -> rget (rset s r v) k = rget s k) /\
+  ms (rset s r v) = ms s /\ out (rset s r v) = out s /\ pc (rset s r v) = pc s /\ im (rset s r v) = im s /\
+  exitc (rset s r v) = exitc s /\ cycles (rset s r v) = cycles s.
+Proof.
+  intros s r v. split; [apply rget_rset_same|]. split; [intros k; apply rget_rset_other|]. apply rset_frame.
+Qed.
+
+Lemma segment_two_orders_lem :
+  (forall a b D T, Forall plain_rline D -> Forall plain_rline T -> ~ In b (map fst D) ->
+     segment rdir_of ((a, RDirective 1) :: D ++ (b, RDirective 0) :: T) = POk (D, T)) /\
+  (forall c d D T, Forall plain_rline D -> Forall plain_rline T -> ~ In d (map fst T) ->
+     segment rdir_of ((c, RDirective 0) :: T ++ (d, RDirective 1) :: D) = POk (D, T)).
+Proof. exact (conj segment_rv_data_text segment_rv_text_data). Qed.
